@@ -109,9 +109,9 @@ def job(kind, method, m, K):
             if method == 'add_shared':
                 for i, t in enumerate(bts):
                     out.append(('buffered event %d is earlier than the first buffered event + duration' % i, t < bts[0] + d))
-                out.append(('invariant: a non-empty buffer has a window start not after its first event', And(ws.disc == 1, ws.fields['Some'][0] <= bts[0]) if bts else BoolVal(True)))
+                out.append(('invariant: a non-empty buffer has a window start not after its first event', And(ws.disc == 1, (ws.fields.get('Some') or [BitVecVal(0, 64)])[0] <= bts[0]) if bts else BoolVal(True)))
                 for i, t in enumerate(bts):
-                    out.append(('invariant: buffered event %d is earlier than window_start + duration' % i, t < ws.fields['Some'][0] + d))
+                    out.append(('invariant: buffered event %d is earlier than window_start + duration' % i, t < (ws.fields.get('Some') or [BitVecVal(0, 64)])[0] + d))
                 if em is not None and m:
                     out.append(('a window is closed only by an event at or after its end', Implies(some, tn >= start + d)))
             else:
@@ -121,7 +121,7 @@ def job(kind, method, m, K):
             if method == 'add_shared':
                 for i in range(len(bts) - 1):
                     out.append(('consecutive buffered events %d,%d are within the session gap' % (i, i + 1), bts[i + 1] - bts[i] <= g))
-                out.append(('invariant: last_event_time is the newest buffered event', And(le.disc == 1, le.fields['Some'][0] == bts[-1]) if bts else BoolVal(False)))
+                out.append(('invariant: last_event_time is the newest buffered event', And(le.disc == 1, (le.fields.get('Some') or [BitVecVal(0, 64)])[0] == bts[-1]) if bts else BoolVal(False)))
                 out.append(('a session is closed exactly by an event more than `gap` after the previous one', some == And(has, tn - last > g)))
             else:
                 out.append(('the watermark closes the session exactly when it has reached last event + gap and events are buffered', some == And(has, tn >= last + g, BoolVal(m > 0))))
